@@ -111,6 +111,26 @@ __CPROVER_ensures((entry == 0 && catalog + 1 < cats_n && h_cat_size[catalog + 1 
 __CPROVER_ensures((entry == 0 && (catalog + 1 >= cats_n || h_cat_size[catalog + 1 < CATS_MAX ? catalog + 1 : 0] == 0)) ==> __CPROVER_return_value == root->total_sectors);
 
 void h_start_sec_of_next(void) { const struct SpaceRoot *r; space_start_sec_of_next(r, nondet_uint(), nondet_uint()); }
+/* C14: `sector-map` and `extract-unused` cover the disc up to the catalogue's total sector count (the same total that
+   `free` and `space` use); an Opus DDOS disc (several volumes) is covered up to the end of the medium */
+struct FileSystemM { int disc_format; struct Geometry geometry_; size_t volumes_n; sector_count_type first_volume_root_total_sectors, first_volume_file_storage_space; };
+#include "Geometry_total_sectors.inc"
+#include "FileSystem_disc_sector_count.inc"
+static sector_count_type Geometry_total_sectors(const struct Geometry *self)
+__CPROVER_requires(__CPROVER_is_fresh(self, sizeof(*self)) && self->cylinders >= 0 && self->cylinders <= 255 && self->heads >= 0 && self->heads <= 2 && self->sectors <= 255)
+__CPROVER_assigns()
+__CPROVER_ensures(__CPROVER_return_value == (unsigned)self->cylinders * (unsigned)self->heads * self->sectors);
+static sector_count_type FileSystem_disc_sector_count(const struct FileSystemM *self)
+__CPROVER_requires(__CPROVER_is_fresh(self, sizeof(*self)) && g_exc == EXC_NONE && !g_exc_by_pointer)
+__CPROVER_requires(self->geometry_.cylinders >= 1 && self->geometry_.cylinders <= 255 && self->geometry_.heads >= 1 && self->geometry_.heads <= 2 && self->geometry_.sectors >= 1 && self->geometry_.sectors <= 255)
+__CPROVER_assigns(g_exc, g_exc_by_pointer)
+__CPROVER_ensures(!g_exc_by_pointer)
+__CPROVER_ensures(self->disc_format == Format_OpusDDOS ==>
+                  (g_exc == EXC_NONE && __CPROVER_return_value == (unsigned)self->geometry_.cylinders * (unsigned)self->geometry_.heads * self->geometry_.sectors))
+__CPROVER_ensures((self->disc_format != Format_OpusDDOS && self->volumes_n > 0) ==> (g_exc == EXC_NONE && __CPROVER_return_value == self->first_volume_root_total_sectors))
+__CPROVER_ensures((self->disc_format != Format_OpusDDOS && self->volumes_n == 0) ==> g_exc == EXC_BadFileSystem);
+void h_disc_sector_count(void) { const struct FileSystemM *f; g_exc = EXC_NONE; g_exc_by_pointer = 0; FileSystem_disc_sector_count(f); }
+
 void h_entry_gap(void)
 {
   const struct CatalogEntry *ce;
